@@ -72,6 +72,11 @@ Section Spec.
   Definition vacuum_tangent_slice_symmetric : Prop :=
     (forall i, S "s.I2" i = 0) -> forall i b c, (b < 3)%nat -> (c < 3)%nat -> G 2 b c i = G 2 c b i.
 
+  (* the dense O(r^2) solve returned a solution of the assembled system (oracle specification; props/C04.v shows that the two
+     residuals are the two O(r^2) differential equations): V2 = model of calculate_r2 *)
+  Definition r2_solved (V2 : string -> I -> R) : Prop :=
+    (forall i, V2 "solve1_eq0" i = 0) /\ (forall i, V2 "solve1_eq1" i = 0).
+
   (* (d) the two derivations agree *)
   Definition two_ways : Prop :=
     forall i a b c, (a < 3)%nat -> (b < 3)%nat -> (c < 3)%nat -> G a b c i = Galt a b c i.
